@@ -147,3 +147,39 @@ Qed.
 Example elf_header_branches_all_four : length elf_header_branches = 4%nat /\
   existsb (fun b => match b with (c, d, _, _, _, _, _) => ((c =? ELF_CLASS_64) && (d =? ELF_DATA_2MSB))%Z end) elf_header_branches = true.
 Proof. vm_compute. auto. Qed.
+
+(* ------------------------------------------------------------------ object.c: the dictionary storage never writes outside its block *)
+(* state after some insertions: capacity of the block (entries), used, free; the three generated definitions are what
+   yr_object_dict_set_item computes.  [dict_step] is one successful insertion; it writes objects[used]. *)
+Local Open Scope Z_scope.
+Record dstate := mkd { d_cap : Z; d_used : Z; d_free : Z }.
+
+Definition dict_first : dstate := mkd dict_initial_count 1 (dict_initial_count - 1).
+
+Definition dict_step (s : dstate) : dstate :=
+  if d_free s =? 0
+  then let c := dict_grow (d_used s) in mkd c (d_used s + 1) (dict_free_after_grow (d_used s) c - 1)
+  else mkd (d_cap s) (d_used s + 1) (d_free s - 1).
+
+Fixpoint dict_after (n : nat) : dstate := match n with O => dict_first | S m => dict_step (dict_after m) end.
+
+Definition dict_inv (s : dstate) : Prop := 0 < d_used s /\ 0 <= d_free s /\ d_used s + d_free s = d_cap s.
+
+Lemma dict_step_inv : forall s, dict_inv s -> dict_inv (dict_step s) /\ d_used s < d_cap (dict_step s).
+Proof.
+  intros [c u f] (Hu & Hf & Hc). unfold dict_inv, dict_step, dict_grow, dict_free_after_grow in *. cbn in *.
+  destruct (f =? 0) eqn:E; cbn; [apply Z.eqb_eq in E | apply Z.eqb_neq in E]; lia.
+Qed.
+
+(* after any number of insertions used + free = capacity, and the slot the next insertion writes (index used) is inside the block *)
+Lemma dict_growth_invariant_l : forall n, dict_inv (dict_after n) /\ d_used (dict_after n) <= d_cap (dict_after n) /\
+  d_used (dict_after n) < d_cap (dict_step (dict_after n)).
+Proof.
+  assert (H0 : dict_inv dict_first) by (unfold dict_inv, dict_first, dict_initial_count; cbn; lia).
+  assert (H : forall n, dict_inv (dict_after n)).
+  { induction n as [|n IH]; [exact H0 | cbn [dict_after]; apply dict_step_inv; exact IH]. }
+  intros n. split; [apply H|]. split; [destruct (H n) as (A & B & C); lia | apply dict_step_inv, H].
+Qed.
+
+Example dict_grows : d_cap (dict_after 63) = 64 /\ d_cap (dict_after 64) = 128 /\ d_cap (dict_after 193) = 256 /\ d_used (dict_after 193) = 194.
+Proof. vm_compute. auto. Qed.
